@@ -112,8 +112,8 @@ def run(ctx, chk):
             if v[0] == 'agg' and v[3] and all(f[0] == 'agg' and f[1].endswith('ChannelId') for f in v[3]):
                 web_ids |= {f[2] for f in v[3]}
         for n, ef in calls:
-            if ef['callee'].endswith('thread::spawn'):
-                c = ef['args'][0]
+            if common.is_thread_spawn(ef['callee']):
+                c = ef['args'][-1]          # (Builder::spawn takes the builder first)
                 if c[0] != 'agg' or not c[1].startswith('closure:'):
                     continue
                 ctxs = [f for f in c[3] if f[0] == 'agg' and f[1] == ctx_ty]
@@ -142,6 +142,8 @@ def run(ctx, chk):
     workers = {}
     for (cname, _ck), (c, ctxs, ef, p) in spawn_seen.items():
         where = ef['site'][2]
+        if not ctxs:
+            continue        # not a worker: a thread without a Context is judged by N9 (it must not be waited for)
         chk.ob('C15.N2', 'spawn:owns-context:%s' % cname.split('::')[-1], len(ctxs) == 1, where,
                'spawned closure captures %d Context value(s) by value' % len(ctxs))
         if len(ctxs) != 1:
@@ -240,6 +242,13 @@ def run(ctx, chk):
     chk.ob('C15.N3', 'manager:joins-all-handles', n_joined == n_handles and n_handles >= 2 and join_loop_over_handles(tmb), tmb.where(0),
            '%d thread handle(s) obtained, %d flow into a join; joined in a loop after the manager loop: %s' % (n_handles, n_joined, join_loop_over_handles(tmb)))
     chk.tables['manager'] = {str(k): sorted(v) for k, v in rows.items()}
+    # N9: every thread the manager waits for is a worker -- it owns a Context, so it is told to stop (N4), leaves its loop
+    # when told (N5) and blocks only on bounded calls (N6). A joined thread of any other kind (a signal waiter, a timer)
+    # that ends on its own schedule keeps run() from returning after a worker died.
+    for where_, desc_, owns_ in joined_thread_closures(fb, tmb, ctx_ty):
+        chk.ob('C15.N9', 'joined-thread-is-a-worker:%s' % desc_, owns_, where_,
+               'the manager joins the thread started at %s, whose closure %s' % (where_, 'owns a Context' if owns_ else
+               'does NOT own a Context: nothing tells it to stop when a worker dies, and the manager waits for it before returning'))
 
     # ------------------------------------------------------------ N4 broadcast
     bc = [bcb] if bcb is not None else []
@@ -605,8 +614,8 @@ def joined_handles(fb, b):
             continue
         nm = mir.callee_name(fn)
         dty = b.tystr(b.locals[t['dest']['l']]['ty'])
-        if nm.endswith('thread::spawn') or ('JoinHandle' in dty and fb.body(nm) is not None and
-                                            common.reaches_call(fb, fb.body(nm), lambda n: n.endswith('thread::spawn'))):
+        if common.is_thread_spawn(nm) or ('JoinHandle' in dty and fb.body(nm) is not None and
+                                          common.reaches_call(fb, fb.body(nm), common.is_thread_spawn)):
             srcs.append(t['dest']['l'])
     joined = 0
     for s_ in srcs:
@@ -623,6 +632,93 @@ def joined_handles(fb, b):
                 ok = True       # (that the closure joins is checked by join_loop_over_handles)
         joined += ok
     return joined, len(srcs)
+
+
+SPAWNS = common.THREAD_SPAWNS
+
+
+def _closure_owns(fb, crate, tix, ctx_ty, body=None, depth=0):
+    """does a closure type (by type-table index) capture a Context by value -- directly, or through a callable it was handed
+    (a type parameter of a spawning helper: the closures its callers pass)"""
+    t = crate.types[tix]
+    if depth > 4:
+        return False
+    if t.get('k') == 'closure':
+        for u in t.get('upvars') or []:
+            ut = crate.types[u]
+            if ut['s'] == ctx_ty:
+                return True
+            if ut.get('k') in ('closure', 'param') and _closure_owns(fb, crate, u, ctx_ty, body, depth + 1):
+                return True
+        return False
+    if t.get('k') == 'param' and body is not None:
+        gens = list(getattr(body, 'generics', None) or [])
+        if t['s'] in gens:
+            ix = gens.index(t['s'])
+            for cb in fb.bodies():
+                for bb, tm, fn in cb.calls():
+                    if fn and body.path in {mir.callee_name(fn), fn['path']}:
+                        targs = ((fn.get('resolved') or {}).get('targs')) or fn.get('targs') or []
+                        if len(targs) == len(gens) and _closure_owns(fb, cb.crate, targs[ix], ctx_ty, cb, depth + 1):
+                            return True
+    return False
+
+
+def joined_thread_closures(fb, b, ctx_ty):
+    """[(where, description, owns a Context?)] for every thread whose handle the manager obtains (a spawn of its own, or a
+    workspace helper returning a handle) and joins"""
+    out = []
+    is_sp = lambda n: n.endswith(SPAWNS)
+
+    def spawn_sites(body, depth=0, seen=None):
+        seen = seen or set()
+        if body.path in seen or depth > 4:
+            return []
+        seen.add(body.path)
+        res = []
+        for bb, t, fn in body.calls():
+            if not fn:
+                continue
+            nm = mir.callee_name(fn)
+            if is_sp(nm):
+                res.append((body, bb, t))
+            else:
+                nb = fb.body(nm)
+                if nb is not None and nb.crate.name == common.DAEMON and common.reaches_call(fb, nb, is_sp):
+                    res += spawn_sites(nb, depth + 1, seen)
+        return res
+    for bb, t, fn in b.calls():
+        if not fn:
+            continue
+        nm = mir.callee_name(fn)
+        dty = b.tystr(b.locals[t['dest']['l']]['ty'])
+        if 'JoinHandle' not in dty:
+            continue
+        direct = is_sp(nm)
+        helper = fb.body(nm) if not direct else None
+        if not direct and not (helper is not None and common.reaches_call(fb, helper, is_sp)):
+            continue
+        reach = common.local_flow(b, {t['dest']['l']})
+        joined = False
+        for b2, t2, f2 in b.calls():
+            if not f2:
+                continue
+            ls = [l for a in t2['args'] for l in common._op_locals(a)]
+            if any(l in reach for l in ls) and (mir.callee_name(f2).endswith('JoinHandle::<T>::join') or
+                                                mir.callee_name(f2).split('::')[-1] in ('for_each', 'map', 'try_for_each', 'into_iter', 'push', 'extend')):
+                joined = True
+        if not joined:
+            continue
+        sites = [(b, bb, t)] if direct else spawn_sites(helper)
+        for sb, sbb, st_ in sites:
+            cl = st_['args'][-1] if st_['args'] else None
+            owns = False
+            if cl is not None and cl.get('k') in ('copy', 'move') and not cl['p']['proj']:
+                owns = _closure_owns(fb, sb.crate, sb.locals[cl['p']['l']]['ty'], ctx_ty, sb)
+            elif cl is not None and cl.get('k') == 'const' and 'ty' in cl:
+                owns = _closure_owns(fb, sb.crate, cl['ty'], ctx_ty, sb)
+            out.append((sb.where(sbb), sb.path.split('::')[-1], owns))
+    return out
 
 
 def join_loop_over_handles(b):
